@@ -740,6 +740,72 @@ pub fn run(ctx: &Ctx) -> i32 {
         );
     }
 
+    // ---------------- (b2) entry codec end to end, without the hook ---------------------------------
+    // craft a raw slot, open it for append, write nothing, flush: the rewritten slot must equal the
+    // original except modification time and the archive bit.
+    let ne2e = ctx.pick(400usize, 6000usize);
+    let r = report::parallel(ctx.threads, ne2e, |i, rep| {
+        use crate::fsx;
+        use crate::mkfs::{name11, Alloc, Fmt, Geom};
+        use crate::vm::{Fl, Nm};
+        let mut rng = Rng::from_parts(&[ctx.seed, 18, 7, i as u64]);
+        let fat32 = i % 2 == 0;
+        let mut g = if fat32 { Geom::base_fat32(65525 + 40_000 + rng.below(500) as u32, 1) } else { Geom::base_fat16(4085 + rng.below(3000) as u32, *rng.pick(&[1u32, 2, 8])) };
+        g.neighbours = false;
+        g.part_start = 1;
+        let mut f = Fmt::new(g, Rng::new(rng.next_u64()));
+        let attr = *rng.pick(&[0x00u8, 0x20, 0x02, 0x04, 0x06, 0x22, 0x26]);
+        let len = *rng.pick(&[1usize, 511, 512, 513, 3000]);
+        // Tail allocation on FAT32 puts the chain above cluster 65535: the high word matters
+        let how = if fat32 { Alloc::Tail } else { *rng.pick(&[Alloc::Seq, Alloc::Scatter, Alloc::Tail]) };
+        let pi = f.add_file(0, &name11("E2E.DAT"), attr, &fsx::payload(i as u32, 0, len), how);
+        let (blk, off) = (f.placed[pi].slot_blk, f.placed[pi].slot_off as usize);
+        let (cd, ct) = stamps_ref[rng.usize_below(stamps_ref.len())];
+        let (md, mt) = stamps_ref[rng.usize_below(stamps_ref.len())];
+        let mut slot = f.placed[pi].raw;
+        slot[14..16].copy_from_slice(&ct.to_le_bytes());
+        slot[16..18].copy_from_slice(&cd.to_le_bytes());
+        slot[22..24].copy_from_slice(&mt.to_le_bytes());
+        slot[24..26].copy_from_slice(&md.to_le_bytes());
+        f.img.write_bytes(blk, off, &slot);
+        let (img, g, _) = f.finish();
+        let m = fsx::mount_image(img, (4, 4, 1), 5000);
+        let res = report::catch(|| -> Result<(), crate::vm::E> {
+            let v = m.vm.open_volume(Fl::Raw, g.part_slot)?;
+            let d = m.vm.open_root_dir(Fl::Raw, v)?;
+            let fh = m.vm.open_file(Fl::Raw, d, Nm::Str("E2E.DAT"), embedded_sdmmc::Mode::ReadWriteAppend)?;
+            m.vm.write(Fl::Raw, fh, &[])?;
+            m.vm.flush(Fl::Raw, fh)?;
+            m.vm.close_file(Fl::Raw, fh)?;
+            m.vm.close_dir(Fl::Raw, d)?;
+            m.vm.close_volume(Fl::Raw, v)
+        });
+        rep.evaluations += 1;
+        let case = || J::obj().set("end_to_end", true).set("geometry", g.describe()).set("slot_hex", slot.iter().map(|b| format!("{:02x}", b)).collect::<String>());
+        match res {
+            Ok(Ok(())) => {}
+            other => {
+                rep.violate(v("C18.entry-roundtrip", "open/append/flush", "end to end failed", format!("{:?}", other.map(|x| x.map_err(|e| crate::vm::ek(&e)))), case()));
+                return;
+            }
+        }
+        let after = m.disk.image().read(blk);
+        let now = &after[off..off + 32];
+        for (nm, rg) in [("name", 0..11usize), ("ctime", 14..18), ("cluster_hi", 20..22), ("cluster_lo", 26..28), ("size", 28..32)] {
+            if now[rg.clone()] != slot[rg.clone()] {
+                rep.violate(v("C18.entry-layout", "flush_file (end to end)", &format!("{} {}", nm, if fat32 { "fat32" } else { "fat16" }), format!("after open-append / empty write / flush the slot's {} changed from {:02x?} to {:02x?}", nm, &slot[rg.clone()], &now[rg.clone()]), case()));
+                return;
+            }
+        }
+        if now[11] | 0x20 != slot[11] | 0x20 {
+            rep.violate(v("C18.entry-layout", "flush_file (end to end)", "attr", format!("attribute byte changed from {:#04x} to {:#04x}", slot[11], now[11]), case()));
+            return;
+        }
+        rep.distinct.insert(crate::prng::hash_bytes(&slot) ^ fat32 as u64);
+        rep.count("end_to_end_slot_rewrites", 1);
+    });
+    total.merge(r);
+
     // ---------------- (c) 8.3 names ------------------------------------------------------------
     let depth = ctx.pick(5usize, 6usize); // after the 2-symbol prefix handed to each worker
     let r = report::parallel(ctx.threads, ALPHABET.len() * ALPHABET.len(), |i, rep| {
